@@ -300,7 +300,11 @@ func (p DHCP4) AppendOptions(options DHCP4Options, order []byte) int {
 		return 0
 	}
 	pos := 0
-	buffer := make([]byte, 1024) // use a tmp buffer in case options point to the underlying array
+	size := 0
+	for _, value := range options {
+		size = size + 2 + len(value)
+	}
+	buffer := make([]byte, size) // use a tmp buffer in case options point to the underlying array
 
 	var optionsReplyParametersList = []byte{
 		byte(DHCP4OptionSubnetMask), // must appear before router options
